@@ -214,6 +214,39 @@ where
     }
 }
 
+#[cfg(feature = "verif-hooks")]
+impl<C, B, K> Pool<C, B, K>
+where
+    B: Send + 'static,
+    C: PoolableConnection<B>,
+    K: Key,
+{
+    /// Verification hook: a consistent read-only view of the pool, taken under the pool lock.
+    pub(crate) fn verif_snapshot<R>(&self, f: impl Fn(&C) -> R) -> Vec<crate::verif::PoolOrigin<R>> {
+        let inner = self.inner.lock();
+        let keys = self.keys.lock();
+        let mut entries = keys.verif_entries();
+        entries.sort_by(|a, b| a.0.cmp(&b.0));
+        entries
+            .into_iter()
+            .map(|(key, token)| crate::verif::PoolOrigin {
+                key,
+                connecting: inner.connecting.contains(&token),
+                waiting: inner
+                    .waiting
+                    .get(&token)
+                    .map(|w| w.iter().map(|tx| tx.is_closed()).collect())
+                    .unwrap_or_default(),
+                idle: inner
+                    .idle
+                    .get(&token)
+                    .map(|i| i.verif_iter().map(&f).collect())
+                    .unwrap_or_default(),
+            })
+            .collect()
+    }
+}
+
 pub(in crate::client) struct PoolRef<C, B>
 where
     C: PoolableConnection<B>,
